@@ -3,12 +3,12 @@ CONSTANTS
   Libs = {"A", "B", "C"}
   NT = 2
   Statuses = {"absent", "fwd", "def", "defg"}
-  Statuses2 = {"absent", "fwd", "defg"}
+  Statuses2 = {"absent", "defg"}
   Modes = {"db"}
   LookupKinds = {"ttn", "tn", "esn"}
   FileBase = 3
-  RecordHist = FALSE
-  DumpKinds = {"C", "P"}
+  RecordHist = TRUE
+  DumpKinds = {"C", "P", "B"}
 INVARIANT TypeOK
 INVARIANT FilesWellFormed
 INVARIANT UnionOK
